@@ -2,12 +2,16 @@ package checks
 
 import (
 	"bytes"
+	"encoding/json"
 	"fmt"
+	"github.com/zishang520/engine.io/v2/engine"
 	"io"
 	"math/rand/v2"
 	"net/http"
+	"net/http/httptest"
 	"sort"
 	"strings"
+	"sync"
 	"testing"
 	"time"
 
@@ -345,6 +349,9 @@ var _ = io.EOF
 func TestC06(t *testing.T) {
 	r := rep.New(t, "C06")
 	defer r.Flush()
+	if r.Lane == 2%r.Lanes {
+		handshakeStorm(r, r.N(40, 1600))
+	}
 	if r.Lane == 3%r.Lanes {
 		// the engine behind a types.HttpServer listening itself: HTTP/1.1, HTTP/2 (TLS) and HTTP/3 (QUIC) on loopback
 		netLanes(r, r.N(4, 64))
@@ -378,5 +385,106 @@ func TestC06(t *testing.T) {
 		if key != "" {
 			r.Violation(key, msg, c)
 		}
+	}
+}
+
+// handshakeStorm: bursts of concurrent handshakes on one server (real time, real goroutines, the
+// handler called directly with recording response writers).  Every response must start with an
+// open packet whose sid is that of exactly one announced session, no sid may be handed out twice,
+// and the configuration fields must be the configured ones in every single response.
+func handshakeStorm(r *rep.Report, rounds int) {
+	so := &config.ServerOptions{}
+	so.SetAllowEIO3(true)
+	so.SetPingInterval(7 * time.Second)
+	so.SetPingTimeout(3 * time.Second)
+	so.SetMaxHttpBufferSize(12345)
+	so.SetCookie(&http.Cookie{Name: "sticky"})
+	eng := engine.NewServer(so)
+	defer eng.Close()
+	var mu sync.Mutex
+	announced := map[string]bool{}
+	eng.On("connection", func(a ...any) {
+		mu.Lock()
+		announced[a[0].(engine.Socket).Id()] = true
+		mu.Unlock()
+	})
+	for round := 0; round < rounds; round++ {
+		const G = 48
+		type out struct {
+			sid, cookie, body string
+			pi, pt, mp        float64
+		}
+		res := make([]out, G)
+		var wg sync.WaitGroup
+		start := make(chan struct{})
+		for g := 0; g < G; g++ {
+			wg.Add(1)
+			go func(g int) {
+				defer wg.Done()
+				<-start
+				rev := 4 - g%2
+				rec := httptest.NewRecorder()
+				eng.ServeHTTP(rec, httptest.NewRequest("GET", fmt.Sprintf("http://h/engine.io/?EIO=%d&transport=polling", rev), nil))
+				body := rec.Body.String()
+				o := out{body: body}
+				var first string
+				if rev == 4 {
+					first = strings.SplitN(body, "\x1e", 2)[0]
+				} else if i := strings.Index(body, ":"); i > 0 {
+					n := 0
+					fmt.Sscanf(body[:i], "%d", &n)
+					if i+1+n <= len(body) {
+						first = body[i+1 : i+1+n]
+					}
+				}
+				var open struct {
+					Sid          string  `json:"sid"`
+					PingInterval float64 `json:"pingInterval"`
+					PingTimeout  float64 `json:"pingTimeout"`
+					MaxPayload   float64 `json:"maxPayload"`
+				}
+				if len(first) > 1 && first[0] == '0' && json.Unmarshal([]byte(first[1:]), &open) == nil {
+					o.sid, o.pi, o.pt, o.mp = open.Sid, open.PingInterval, open.PingTimeout, open.MaxPayload
+				}
+				for _, ck := range (&http.Response{Header: rec.Header()}).Cookies() {
+					o.cookie = ck.Value
+				}
+				res[g] = o
+			}(g)
+		}
+		close(start)
+		wg.Wait()
+		time.Sleep(5 * time.Millisecond)
+		seen := map[string]int{}
+		mu.Lock()
+		for g, o := range res {
+			bad := ""
+			switch {
+			case o.sid == "":
+				bad = "does not start with a decodable open packet"
+			case !announced[o.sid]:
+				bad = fmt.Sprintf("carries sid %q, which no connection event announced", o.sid)
+			case o.cookie != o.sid:
+				bad = fmt.Sprintf("carries sid %q in the open packet and %q in the handshake cookie", o.sid, o.cookie)
+			case o.pi != 7000 || o.pt != 3000 || o.mp != 12345:
+				bad = fmt.Sprintf("advertises pingInterval %v pingTimeout %v maxPayload %v (configured 7000/3000/12345)", o.pi, o.pt, o.mp)
+			}
+			if bad == "" {
+				seen[o.sid]++
+				if seen[o.sid] > 1 {
+					bad = fmt.Sprintf("carries sid %q, already handed to another client of the same burst", o.sid)
+				}
+			}
+			if bad != "" {
+				mu.Unlock()
+				r.Violationf("c06-open-packet-concurrent-handshakes", map[string]any{"lane": "bursts of 48 concurrent handshakes", "round": round}, "handshake response %d of a burst of %d concurrent handshakes %s (body %.80q)", g, G, bad, o.body)
+				return
+			}
+		}
+		mu.Unlock()
+		r.Case("handshake-storm", true)
+		r.Obs("concurrent_handshakes_checked", G)
+		// make room: close what the burst opened
+		eng.Clients().Range(func(_ string, s engine.Socket) bool { s.Close(true); return true })
 	}
 }
